@@ -78,7 +78,7 @@ func startServer(c *vf.Ctx, worker int) (*proc.Server, error) {
 // ---- case generation: a fixed function of (seed, tier)
 
 func generate(c *vf.Ctx) []*Batch {
-	nPure := c.Pick(26, 180)
+	nPure := c.Pick(34, 180)
 	pureLines := c.Pick(50, 200)
 	nMixed := c.Pick(20, 200)
 	mixedValid := c.Pick(35, 120)
@@ -86,26 +86,38 @@ func generate(c *vf.Ctx) []*Batch {
 	mixedMaybe := c.Pick(3, 5)
 	nSingle := c.Pick(10, 100)
 	rr := map[string]int{}
+	mixedSeq := 0
 	var out []*Batch
-	mk := func(kind string, nValid, nInvalid, nMaybe int) {
+	mk := func(kind string, nValid, nInvalid, nMaybe, nRestricted int, parserOnly bool) {
+		strict := 0
+		if kind == "pure" {
+			strict = 2
+		} else if parserOnly {
+			strict = 1
+		}
 		n := len(out)
-		g := &gen{r: c.Rand(uint64(n) + 1), seed: c.Seed, batch: n, rr: rr, measShare: c.Pick(1, 3)}
+		g := &gen{r: c.Rand(uint64(n) + 1), seed: c.Seed, batch: n, rr: rr, measShare: c.Pick(1, 3), parserOnly: parserOnly}
+		// two requests (one that must be accepted, one mixed) are larger than one read block
+		g.longStrings = kind == "pure" && n == 3 || kind == "mixed" && mixedSeq == 4
 		g.meas = fmt.Sprintf("c06b%04d", n)
 		g.prec = precisions[n%len(precisions)]
 		b := &Batch{N: n, Kind: kind, Precision: g.prec, Meas: g.meas}
 		for i := 0; i < nValid; i++ {
-			b.Lines = append(b.Lines, g.validLine(g.r.IntN(100) < 40))
+			b.Lines = append(b.Lines, g.validLine(g.r.IntN(100) < 40 || kind == "single-valid", strict))
 		}
 		for i := 0; i < nInvalid; i++ {
 			b.Lines = append(b.Lines, g.invalidLine())
 		}
 		for i := 0; i < nMaybe; i++ {
-			b.Lines = append(b.Lines, g.maybeLine(), g.restrictedLine())
+			b.Lines = append(b.Lines, g.maybeLine())
+		}
+		for i := 0; i < nRestricted; i++ {
+			b.Lines = append(b.Lines, g.restrictedLine())
 		}
 		g.r.Shuffle(len(b.Lines), func(i, j int) { b.Lines[i], b.Lines[j] = b.Lines[j], b.Lines[i] })
 		if kind == "mixed" {
 			// alternate what the request ends with (the server's answer depends on it)
-			wantValidLast := n%2 == 0
+			wantValidLast := (mixedSeq/4)%2 == 0
 			last := len(b.Lines) - 1
 			for i := range b.Lines {
 				if (b.Lines[i].Kind == kValid) == wantValidLast && (b.Lines[i].Kind == kValid || b.Lines[i].Kind == kInvalid) {
@@ -133,14 +145,24 @@ func generate(c *vf.Ctx) []*Batch {
 		out = append(out, b)
 	}
 	for i := 0; i < nPure; i++ {
-		mk("pure", pureLines, 0, 0)
+		mk("pure", pureLines, 0, 0, 0, false)
 	}
 	for i := 0; i < nMixed; i++ {
-		mk("mixed", mixedValid, mixedInvalid, mixedMaybe)
+		mixedSeq = i
+		switch i % 4 {
+		case 0: // only lines that the parser itself must refuse
+			mk("mixed", mixedValid, mixedInvalid, 0, 0, true)
+		case 1: // plus lexically unusual numbers
+			mk("mixed", mixedValid, mixedInvalid, 2*mixedMaybe, 0, true)
+		case 2: // plus lines that a later stage refuses (time out of range)
+			mk("mixed", mixedValid, mixedInvalid, 0, 0, false)
+		default: // plus lines that openGemini documents as unsupported
+			mk("mixed", mixedValid, mixedInvalid, 2*mixedMaybe, 4*mixedMaybe, false)
+		}
 	}
 	for i := 0; i < nSingle; i++ {
-		mk("single-valid", 1, 0, 0)
-		mk("single-invalid", 0, 1, 0)
+		mk("single-valid", 1, 0, 0, 0, false)
+		mk("single-invalid", 0, 1, 0, 0, false)
 	}
 	return out
 }
@@ -183,10 +205,16 @@ func (r *runner) write(b *Batch) bool {
 	w := r.s.Write(db, b.Body, p)
 	if w.Err != nil {
 		r.c.Inconclusive("write-transport-error", 1)
+		if debug {
+			fmt.Printf("TRANSPORT req=%d %v\n", b.N, w.Err)
+		}
 		b.Status = -1
 		return false
 	}
 	b.Status, b.RespBody = w.Status, w.Body
+	if debug {
+		fmt.Printf("REQ %d %s prec=%q last=%s/%s -> %d %.200s\n", b.N, b.Kind, b.Precision, b.Lines[len(b.Lines)-1].Kind, b.Lines[len(b.Lines)-1].Why, w.Status, w.Body)
+	}
 	if len(b.RespBody) > 400 {
 		b.RespBody = b.RespBody[:400]
 	}
@@ -213,6 +241,12 @@ func (r *runner) waitSentinel(id string) {
 }
 
 func run(c *vf.Ctx, s *proc.Server, batches []*Batch) {
+	t0 := time.Now()
+	lap := func(what string) {
+		if debug {
+			fmt.Printf("PHASE %s done at %.1fs\n", what, time.Since(t0).Seconds())
+		}
+	}
 	r := &runner{c: c, s: s, expected: map[string]bool{sentinelMeas: true}, gone: map[string]bool{}}
 	for _, b := range batches {
 		r.expected[b.Meas] = true
@@ -228,7 +262,9 @@ func run(c *vf.Ctx, s *proc.Server, batches []*Batch) {
 		c.Violation("server-died:during-writes", "ts-server exited while line protocol was being written", map[string]any{"log": s.StdoutTail(4000)})
 		return
 	}
+	lap("writes")
 	r.waitSentinel("SENT1")
+	lap("sentinel")
 
 	// phase 2: read back from the in-memory tables
 	deferred := make([][]*Line, len(batches))
@@ -239,7 +275,7 @@ func run(c *vf.Ctx, s *proc.Server, batches []*Batch) {
 		}
 		var v *verdict
 		for try := 0; try < 24; try++ {
-			v = r.evaluate(b, nil)
+			v = r.evaluate(b, nil, true)
 			if v == nil || len(v.missing) == 0 {
 				break
 			}
@@ -251,6 +287,7 @@ func run(c *vf.Ctx, s *proc.Server, batches []*Batch) {
 		r.commit(b, v, "memtable", true, true)
 		deferred[i] = v.missing
 	})
+	lap("memtable pass")
 	// accepted points that never showed up: judged only after the server has had no write for 10 s
 	nDef := 0
 	for _, d := range deferred {
@@ -272,14 +309,18 @@ func run(c *vf.Ctx, s *proc.Server, batches []*Batch) {
 			for _, ln := range d {
 				only[ln.ID] = true
 			}
-			v := r.evaluate(b, only)
+			v := r.evaluate(b, only, false)
 			if v == nil {
 				continue
 			}
 			for _, ln := range v.missing {
 				r.gone[ln.ID] = true
 				c.Eval(1)
-				c.Violation("accepted-not-readable:"+mainCat(ln, ""), fmt.Sprintf("request answered 204, line %q is not returned by a query after the server has been idle for >10 s", ln.Text),
+				cat := ln.Why
+				if cat == "" {
+					cat = mainCat(ln, "")
+				}
+				c.Violation("accepted-not-readable:"+cat, fmt.Sprintf("request answered 204, line %q is not returned by a query after the server has been idle for >10 s", ln.Text),
 					&witness{b, ln.ID, "memtable"})
 			}
 			v.missing = nil
@@ -290,6 +331,7 @@ func run(c *vf.Ctx, s *proc.Server, batches []*Batch) {
 		c.Violation("server-died:during-reads", "ts-server exited while the written data were being queried", map[string]any{"log": s.StdoutTail(4000)})
 		return
 	}
+	lap("deferred")
 	r.checkMeasurements()
 
 	// phase 3: flush to disk and read everything back again (column files instead of row tables)
@@ -297,12 +339,13 @@ func run(c *vf.Ctx, s *proc.Server, batches []*Batch) {
 		c.Inconclusive("flush-failed", 1)
 		return
 	}
+	lap("flush")
 	parallel(len(batches), 8, func(i int) {
 		b := batches[i]
 		if b.Status < 0 {
 			return
 		}
-		v := r.evaluate(b, nil)
+		v := r.evaluate(b, nil, false)
 		if v == nil {
 			return
 		}
@@ -313,10 +356,13 @@ func run(c *vf.Ctx, s *proc.Server, batches []*Batch) {
 		}
 		r.commit(b, v, "flushed", false, false)
 	})
+	lap("flushed pass")
 	if !s.Alive() {
 		c.Violation("server-died:after-flush", "ts-server exited after the flush", map[string]any{"log": s.StdoutTail(4000)})
 	}
 }
+
+var debug = os.Getenv("C06_DEBUG") != ""
 
 type finding struct {
 	sig, what string
@@ -327,13 +373,16 @@ type verdict struct {
 	findings []finding
 	missing  []*Line // must be present, not (yet) visible
 	okLines  []*Line // judged, nothing wrong
-	counts   map[string]int64
-	types    []finding
+	// valid lines of a request answered with an error that are not stored: admissible,
+	// but nothing was compared, so they do not count for coverage
+	unverified []*Line
+	counts     map[string]int64
+	types      []finding
 }
 
 // evaluate queries every measurement of the batch and judges each line (only those in
 // `only` if non-nil). It reports nothing by itself.
-func (r *runner) evaluate(b *Batch, only map[string]bool) *verdict {
+func (r *runner) evaluate(b *Batch, only map[string]bool, reqLevel bool) *verdict {
 	v := &verdict{counts: map[string]int64{}}
 	measSet := map[string]bool{b.Meas: true}
 	for i := range b.Lines {
@@ -427,7 +476,7 @@ func (r *runner) evaluate(b *Batch, only map[string]bool) *verdict {
 					v.missing = append(v.missing, ln)
 				} else {
 					v.counts["valid-line-not-stored-in-request-answered-with-error"]++
-					v.okLines = append(v.okLines, ln)
+					v.unverified = append(v.unverified, ln)
 				}
 				continue
 			}
@@ -435,6 +484,9 @@ func (r *runner) evaluate(b *Batch, only map[string]bool) *verdict {
 				sig := m.sig
 				if sig == "" {
 					sig = "valid-mismatch:" + m.aspect + ":" + mainCat(ln, m.aspect)
+					if ln.Why != "" {
+						sig = "valid-mismatch:" + m.aspect + ":" + ln.Why
+					}
 				}
 				v.findings = append(v.findings, finding{sig, fmt.Sprintf("line %q (request status %d) reads back different: %s", ln.Text, b.Status, m.detail), ln})
 				continue
@@ -483,11 +535,20 @@ func (r *runner) evaluate(b *Batch, only map[string]bool) *verdict {
 			v.okLines = append(v.okLines, ln)
 		}
 	}
-	if only == nil {
+	if only == nil && reqLevel {
 		// whole-request obligations
-		if (b.Kind == "pure" || b.Kind == "single-valid") && !accepted {
+		if b.Kind == "pure" && !accepted {
 			v.findings = append(v.findings, finding{fmt.Sprintf("valid-request-rejected:%d", b.Status),
 				fmt.Sprintf("request %d with only valid lines answered %d %s", b.N, b.Status, b.RespBody), &b.Lines[0]})
+		}
+		if b.Kind == "single-valid" && !accepted && b.Lines[0].Kind == kValid {
+			ln := &b.Lines[0]
+			why := ln.Why
+			if why == "" {
+				why = mainCat(ln, "")
+			}
+			v.findings = append(v.findings, finding{"valid-line-rejected:" + why,
+				fmt.Sprintf("valid line %q sent alone is answered %d %s", ln.Text, b.Status, b.RespBody), ln})
 		}
 		// every returned series must be explained by a line of this request
 		for m, byID := range rows {
@@ -538,9 +599,15 @@ func (r *runner) commit(b *Batch, v *verdict, pass string, first, reqLevel bool)
 			c.Eval(1)
 			countCats(c, f.ln, "judged-with-finding")
 		}
+		if debug {
+			fmt.Printf("FINDING\t%s\t[%s] req=%d/%s/%d\t%s\n", f.sig, pass, b.N, b.Kind, b.Status, f.what)
+		}
 		c.Violation(f.sig, "["+pass+"] "+f.what, &witness{b, f.ln.ID, pass})
 	}
 	for _, f := range v.types {
+		if debug {
+			fmt.Printf("FINDING\t%s\t[%s] req=%d\t%s\n", f.sig, pass, b.N, f.what)
+		}
 		c.Violation(f.sig, "["+pass+"] "+f.what, &witness{b, f.ln.ID, pass})
 	}
 	c.Count("rows-compared:"+pass, int64(len(v.okLines)))
@@ -563,6 +630,10 @@ func (r *runner) commit(b *Batch, v *verdict, pass string, first, reqLevel bool)
 		if len(b.Lines) > 0 {
 			c.Distinct("request-ends-with", b.Lines[len(b.Lines)-1].Kind)
 		}
+	}
+	for _, ln := range v.unverified {
+		c.Eval(1)
+		c.Count("lines:"+ln.Kind+":absent-after-error-response", 1)
 	}
 	for _, ln := range v.okLines {
 		c.Eval(1)
